@@ -170,7 +170,9 @@ pub fn run(c: &[u64]) -> Vec<i128> {
         }
         [2, v, k, rsp_off, rflags, err] if *v < 256 && *k < 16 && *rsp_off < 4000 => unsafe {
             let mut idt = InterruptDescriptorTable::new();
-            install(&mut idt, Bound::Unbounded, Bound::Unbounded);
+            if catch(std::panic::AssertUnwindSafe(|| install(&mut idt, Bound::Unbounded, Bound::Unbounded))).is_none() {
+                return vec![PANIC];
+            }
             let w = raw(&idt);
             let (lo, hi) = (w[2 * *v as usize], w[2 * *v as usize + 1]);
             if lo >> 47 & 1 == 0 {
